@@ -48,8 +48,14 @@ def check(ctx: Ctx) -> None:
     res_fi = model.fi(UT, "_calculate_residuals")
     chi_fi = model.fi(UT, "_calculate_pseudo_chisqr")
     for mod, fn, cls in SITES:
-        fi = model.fi(mod, fn)
+        fi0 = model.fi(mod, fn)
         ctx.modules_consulted.add(mod)
+        # helpers extracted from the site (same module, private, one return expression) are inlined into a clone
+        from ..prov import inlined_function
+        import copy as _copy
+        fi = _copy.copy(fi0)
+        if not [c for c in calls_in(fi0.node) if dotted(c.func) == cls]:
+            fi.node = inlined_function(model, fi0)
         ctor = [c for c in calls_in(fi.node) if dotted(c.func) == cls]
         if len(ctor) != 1:
             raise AnalysisError(f"{fn}: expected exactly one {cls}(…) construction, found {len(ctor)}")
@@ -289,6 +295,12 @@ def _producer(ctx: Ctx, model, mod: str, fn: str, site: str, fi, ctor: ast.Call,
         zf = [n for n in walk_ordered(loop) if isinstance(n, (ast.Assign, ast.AnnAssign)) and norm(n.targets[0] if isinstance(n, ast.Assign) else n.target) == "Z_fit"] if isinstance(loop, ast.For) else []
         paired = paired and len(zf) == 1 and norm(zf[0].value) == "circuit.get_impedances(f)"
         if not paired:
+            # comprehension form (possibly through inlined helpers): the circuit and its pseudo chi-squared are the two
+            # components of one item of zip(fits.circuits, fits.pseudo_chisqrs)
+            Z = "zip(fits.circuits, fits.pseudo_chisqrs)"
+            kwc = {k.arg: ast.unparse(k.value) for k in ctor.keywords}
+            paired = ast.unparse(pv) == f"each({Z}, 1)" and kwc.get("circuit") == f"each({Z}, 0)" and kwc.get("impedances", "").startswith(f"each({Z}, 0).get_impedances(")
+        if not paired:
             ctx.violation("R8.1", f"{site}:chisqr-source", mod, pv, f"{site}: pseudo chi-squared {norm(pv)} is not the entry of fits.pseudo_chisqrs paired (zip) with the circuit whose impedances are reported")
             return
         ctx.ok()
@@ -297,19 +309,26 @@ def _producer(ctx: Ctx, model, mod: str, fn: str, site: str, fi, ctor: ast.Call,
             ctx.instance("R8.1", f"{prod}: pseudo_chisqrs[i] belongs to circuits[i]")
             pc = [n for n in walk_ordered(pf.node) if isinstance(n, (ast.Assign, ast.AnnAssign)) and norm(n.targets[0] if isinstance(n, ast.Assign) else n.target) == "pseudo_chisqrs"]
             rets = [c for c in calls_in(pf.node) if dotted(c.func) == "_KKFits"]
-            ok = len(pc) == 1 and len(rets) == 1 and isinstance(pc[0].value, ast.ListComp)
+            pcv = pc[0].value if len(pc) == 1 else None
+            if isinstance(pcv, ast.Call) and not isinstance(pcv, ast.ListComp):
+                from ..prov import inline_call
+                inl = inline_call(model, pf, pcv)  # the comprehension may live in a helper shared by the three producers
+                if inl is not None:
+                    pcv = inl
+            ok = len(pc) == 1 and len(rets) == 1 and isinstance(pcv, ast.ListComp)
             if ok:
-                lc = pc[0].value
+                lc = pcv
                 call = lc.elt
                 ok = isinstance(call, ast.Call) and dotted(call.func) == "_calculate_pseudo_chisqr"
                 if ok:
                     a = call_args(call, chi.node)
-                    ok = norm(a["Z_exp"]) == "Z_exp" and norm(a["Z_fit"]) == "circuit.get_impedances(f)" \
-                        and norm(lc.generators[0].iter) == "fits" and "circuit" in norm(lc.generators[0].target)
+                    ok = norm(a["Z_exp"]) == "Z_exp" and norm(lc.generators[0].iter) == "fits" \
+                        and ((norm(a["Z_fit"]) == "circuit.get_impedances(f)" and "circuit" in norm(lc.generators[0].target))
+                             or norm(a["Z_fit"]) == "each(fits, 1).get_impedances(f)")  # resolver notation: second component of each item of fits
                     w = a.get("weight")
                     if ok and w is not None and not (isinstance(w, ast.Constant) and w.value is None):
                         Rw = Resolver(pf.node)
-                        ok = Rw.text(w, call) in ("_boukamp_weight(Z_exp, admittance=False)", "_boukamp_weight(Z_exp, False)", "_boukamp_weight(Z_exp)")
+                        ok = (Rw.text(w, call) if pcv is pc[0].value else norm(w)) in ("_boukamp_weight(Z_exp, admittance=False)", "_boukamp_weight(Z_exp, False)", "_boukamp_weight(Z_exp)")
                 kwr = {k.arg: norm(k.value) for k in rets[0].keywords}
                 ok = ok and kwr.get("pseudo_chisqrs") == "pseudo_chisqrs" and kwr.get("circuits") in ("[f[1] for f in fits]", "[circuit for num_RC, circuit in fits]", "[circuit for (num_RC, circuit) in fits]")
                 # no re-ordering of `fits` between the two comprehensions
